@@ -540,6 +540,13 @@ where
             self.io.start_timer(params.timeout);
 
             log::trace!("{}: Start frame read timer {:?}", self.io.tag(), params.timeout);
+        } else if self.flags.contains(Flags::KA_ENABLED)
+            && !self.flags.contains(Flags::KA_TIMEOUT)
+        {
+            // incomplete frame and frame read rate is not configured,
+            // keep-alive timer must be active
+            self.flags.insert(Flags::KA_TIMEOUT);
+            self.io.start_timer(self.keepalive_timeout);
         }
     }
 
